@@ -51,3 +51,44 @@ func VerifC03StringBranching() {
 		verifCover("append-reused-capacity")
 	}
 }
+
+func verifBaseBytes(maxLen int) Set {
+	n := verifChoice(maxLen + 1)
+	base := make([]byte, n)
+	for i := range base {
+		base[i] = verifNondetByte()
+	}
+	o := verifNondetIntIn(-2, 2)
+	return NewOffsetBytes(base, o)
+}
+
+func verifBytesOp(p Set) Set {
+	at := verifNondetIntIn(-4, 6)
+	b := verifNondetByte()
+	switch verifChoice(2) {
+	case 0:
+		return p.With(NewBytesByteTuple(at, b))
+	default:
+		return p.Without(NewBytesByteTuple(at, b))
+	}
+}
+
+// VerifC03BytesBranching: as VerifC03StringBranching, for byte arrays.
+func VerifC03BytesBranching() {
+	p := verifBaseBytes(3)
+	if verifChoice(2) == 1 {
+		p = verifBytesOp(p)
+	}
+	snapP, _ := verifDenBytes(p)
+	r1 := verifBytesOp(p)
+	snapR1, _ := verifDenBytes(r1)
+	r2 := verifBytesOp(p)
+	_ = r2
+	nowP, _ := verifDenBytes(p)
+	nowR1, _ := verifDenBytes(r1)
+	verifAssert("parent-unchanged", verifDenEq(nowP, snapP))
+	verifAssert("sibling-unchanged", verifDenEq(nowR1, snapR1))
+	if verifInPlaceAppends() > 0 {
+		verifCover("append-reused-capacity")
+	}
+}
